@@ -6865,6 +6865,11 @@ def compile(func, /, *, stats: typing.Optional[str] = None, cache_const_intermed
         # Make all cached results immutable.
         for v in cache_vars:
             main.append(_pyast.Exec(v.get_attr('setflags').call(write=_pyast.LiteralBool(False))))
+        # Results of the first run that are views of cached data were created
+        # while the cache was still writable: protect those as well.
+        if cache_vars:
+            for v in py_funcs:
+                main.append(_pyast.Exec(_pyast.Variable('evaluable').get_attr('_protect_views_of_cache').call(v, *cache_vars)))
         # Combine `main` (for the first run) and `main_rerun` into `main`.
         main.append(_pyast.Assign(first_run, _pyast.LiteralBool(False)))
         main = _pyast.Block([
@@ -6888,6 +6893,11 @@ def compile(func, /, *, stats: typing.Optional[str] = None, cache_const_intermed
         print(script)
 
     return util.function(script, globals)
+
+
+def _protect_views_of_cache(result, *cached):
+    if isinstance(result, numpy.ndarray) and result.flags.writeable and any(isinstance(c, numpy.ndarray) and numpy.may_share_memory(result, c) for c in cached):
+        result.setflags(write=False)
 
 
 def _define_loop_block_structure(targets: typing.Tuple[Evaluable, ...]) -> typing.Tuple[Evaluable, ...]:
